@@ -749,20 +749,24 @@ func jpfSortBy(arguments []interface{}) (interface{}, error) {
 	if err != nil {
 		return nil, err
 	}
+	// Sort a copy: the argument may be part of the caller's document or a
+	// literal held by the compiled expression.
+	sorted := make([]interface{}, len(arr))
+	copy(sorted, arr)
 	if _, ok := start.(float64); ok {
-		sortable := &byExprFloat{intr, node, arr, false}
+		sortable := &byExprFloat{intr, node, sorted, false}
 		sort.Stable(sortable)
 		if sortable.hasError {
 			return nil, errors.New("error in sort_by comparison")
 		}
-		return arr, nil
+		return sorted, nil
 	} else if _, ok := start.(string); ok {
-		sortable := &byExprString{intr, node, arr, false}
+		sortable := &byExprString{intr, node, sorted, false}
 		sort.Stable(sortable)
 		if sortable.hasError {
 			return nil, errors.New("error in sort_by comparison")
 		}
-		return arr, nil
+		return sorted, nil
 	} else {
 		return nil, errors.New("invalid type, must be number of string")
 	}
